@@ -317,7 +317,11 @@ func main() {
 		} else {
 			nUnlisted++
 			lines = append(lines, fmt.Sprintf("VIOLATION property=%s replay=%s", id, rp))
-			lines = append(lines, fmt.Sprintf("  signature: %s\n  clause: %s\n  detail: %s", sig, v.Clause, indent(head(v.Detail, 1500))))
+			if nUnlisted <= 12 {
+				lines = append(lines, fmt.Sprintf("  signature: %s\n  clause: %s\n  detail: %s", sig, v.Clause, indent(head(v.Detail, 1500))))
+			} else {
+				lines = append(lines, fmt.Sprintf("  signature: %s", sig))
+			}
 		}
 		vioSummary = append(vioSummary, map[string]interface{}{"signature": sig, "status": status, "clause": v.Clause, "count": v.Count, "replay": rp})
 	}
